@@ -54,6 +54,10 @@ def run(ctx):
             with ctx.renamed({"C02.ZIP": "C09.DROP", "C02.POLLDROP": "C09.DROP"}):
                 c02.rule_zip(ctx, M, u)
                 c02.rule_polldrop(ctx, M, u)
+        if base(cfg) != "core":
+            joinlike.rule_vec_assume_init(ctx, M, "C09.EMIT")
+        from . import common as _cm
+        ctx.require(_cm.rule_pin_utils(ctx, M, "C09.ROW") >= 1, "utils::pin helpers")
         n = joinlike.rule_ext(ctx, M, "stream::stream_ext::StreamExt", "zip", "zip", "C09.EXT")
         ctx.require(n >= 1, "StreamExt::zip")
         na = 1 if base(cfg) == "core" else 2
